@@ -415,5 +415,522 @@ theorem accumulate_consumed (o : Oracle) (w : W) (t : Tx) :
   obtain ⟨rp, hp', _, _⟩ := addConsumed_ext _ t.sender t.value _ _ hp
   rw [addConsumed_consumed _ hp', addConsumed_consumed _ hs, getRecord_consumed, getRecord_consumed]
 
+/-! ### one classification step -/
+
+/-- classification only extends the table; consumed balances are untouched -/
+theorem classifyW_ext (o : Oracle) (guard : Tx → Bool) (w : W) (it : HItem) :
+    Ext w (classifyW o guard w it).1 ∧ W.consumed (classifyW o guard w it).1 = W.consumed w ∧
+    (W.Ok o w → W.Ok o (classifyW o guard w it).1) := by
+  have e1 := getRecord_ext o w it.cur.sender
+  have c1 := getRecord_consumed o w it.cur.sender
+  have e2 := getRecord_ext o (w.getRecord o it.cur.sender).1 it.cur.payer
+  have c2 := getRecord_consumed o (w.getRecord o it.cur.sender).1 it.cur.payer
+  have e3 := getRecord_ext o ((w.getRecord o it.cur.sender).1.getRecord o it.cur.payer).1 it.cur.sender
+  have c3 := getRecord_consumed o ((w.getRecord o it.cur.sender).1.getRecord o it.cur.payer).1 it.cur.sender
+  have r1 : Ext w (w.getRecord o it.cur.sender).1 ∧ W.consumed (w.getRecord o it.cur.sender).1 = W.consumed w ∧
+      (W.Ok o w → W.Ok o (w.getRecord o it.cur.sender).1) := ⟨e1, c1, fun h => getRecord_ok _ h⟩
+  have r2 : Ext w ((w.getRecord o it.cur.sender).1.getRecord o it.cur.payer).1 ∧
+      W.consumed ((w.getRecord o it.cur.sender).1.getRecord o it.cur.payer).1 = W.consumed w ∧
+      (W.Ok o w → W.Ok o ((w.getRecord o it.cur.sender).1.getRecord o it.cur.payer).1) :=
+    ⟨e1.trans e2, c2.trans c1, fun h => getRecord_ok _ (getRecord_ok _ h)⟩
+  have r3 : Ext w (((w.getRecord o it.cur.sender).1.getRecord o it.cur.payer).1.getRecord o it.cur.sender).1 ∧
+      W.consumed (((w.getRecord o it.cur.sender).1.getRecord o it.cur.payer).1.getRecord o it.cur.sender).1
+        = W.consumed w ∧
+      (W.Ok o w → W.Ok o (((w.getRecord o it.cur.sender).1.getRecord o it.cur.payer).1.getRecord o it.cur.sender).1) :=
+    ⟨(e1.trans e2).trans e3, c3.trans (c2.trans c1), fun h => getRecord_ok _ (getRecord_ok _ (getRecord_ok _ h))⟩
+  unfold classifyW
+  dsimp only
+  repeat' split
+  all_goals first | exact r1 | exact r2 | exact r3
+
+set_option linter.unusedSimpArgs false in
+/-- the verdict of the wrapper is the verdict of the pure `classify` for EVERY pure session that agrees with the
+    table as it is after the step: the step looks at the session only through addresses it has memoised -/
+theorem classifyW_sound (o : Oracle) (guard : Tx → Bool) (w : W) (it : HItem) (s : Session)
+    (hg : s.badGuard = guard) (ha : Agree (classifyW o guard w it).1 s) :
+    classify s (W.consumed w) it = (classifyW o guard w it).2 := by
+  obtain ⟨cur, rest, latest⟩ := it
+  have l1 := getRecord_lookup o w cur.sender
+  have c1 := getRecord_consumed o w cur.sender
+  have e2 := getRecord_ext o (w.getRecord o cur.sender).1 cur.payer
+  have l2 := getRecord_lookup o (w.getRecord o cur.sender).1 cur.payer
+  have c2 := getRecord_consumed o (w.getRecord o cur.sender).1 cur.payer
+  have e3 := getRecord_ext o ((w.getRecord o cur.sender).1.getRecord o cur.payer).1 cur.sender
+  have l3 := getRecord_lookup o ((w.getRecord o cur.sender).1.getRecord o cur.payer).1 cur.sender
+  have hcons : W.consumed w cur.payer = ((w.getRecord o cur.sender).1.getRecord o cur.payer).2.consumed := by
+    rw [← consumed_of_lookup l2, c2, c1]
+  unfold classifyW at ha ⊢
+  unfold classify
+  cases latest
+  all_goals
+    simp only [Option.isNone_none, Option.isNone_some, Bool.true_and, Bool.false_and, Bool.false_eq_true,
+      if_false] at ha ⊢
+    rw [hg]
+    repeat' split at ha
+  all_goals
+    dsimp only at ha
+    first
+    | (have hn := (ha _ _ l1).1
+       simp only [*, if_true, if_false, Bool.false_eq_true])
+    | (have hn := ((ha.of_ext e2) _ _ l1).1
+       have hb := (ha _ _ l2).2
+       simp only [*, if_true, if_false, Bool.false_eq_true])
+    | (have hn := ((ha.of_ext (e2.trans e3)) _ _ l1).1
+       have hb := ((ha.of_ext e3) _ _ l2).2
+       have hn3 := (ha _ _ l3).1
+       rw [hn] at hn3
+       simp only [← hn3] at *
+       simp only [*, if_true, if_false, Bool.false_eq_true])
+
+/-! ### the loop -/
+
+theorem ext_step {o : Oracle} {w w1 wf : W} (e : Ext w w1) (ok : W.Ok o w → W.Ok o w1)
+    (r : Ext w1 wf ∧ (W.Ok o w1 → W.Ok o wf)) : Ext w wf ∧ (W.Ok o w → W.Ok o wf) :=
+  ⟨e.trans r.1, fun h => r.2 (ok h)⟩
+
+/-- along the loop the table is only extended (an entry never changes its nonce/balance) and stays a faithful
+    log of the oracle calls -/
+theorem selectLoopWS_ext (v : Variant) (pick : List HItem → Option (HItem × List HItem)) (o : Oracle)
+    (guard : Tx → Bool) (q : SelParams) :
+    ∀ fuel heap w acc out,
+      Ext w (selectLoopWS v pick o guard q fuel heap w acc out).2 ∧
+      (W.Ok o w → W.Ok o (selectLoopWS v pick o guard q fuel heap w acc out).2) := by
+  intro fuel
+  induction fuel with
+  | zero => intro heap w acc out; exact ⟨Ext.refl _, id⟩
+  | succ fuel ih =>
+    intro heap w acc out
+    unfold selectLoopWS
+    split
+    · exact ⟨Ext.refl _, id⟩
+    · rename_i it heap' hp
+      obtain ⟨ce, _, cok⟩ := classifyW_ext o guard w it
+      have ae := accumulate_ext o (classifyW o guard w it).1 it.cur
+      have aok : W.Ok o (classifyW o guard w it).1 → W.Ok o ((classifyW o guard w it).1.accumulate o it.cur) :=
+        fun h => accumulate_ok _ h
+      split
+      · exact ⟨Ext.refl _, id⟩
+      split
+      · exact ⟨Ext.refl _, id⟩
+      split
+      · exact ⟨Ext.refl _, id⟩
+      dsimp only
+      split
+      · exact ext_step ce cok (ih _ _ _ _)
+      · split
+        · exact ext_step ce cok (ih _ _ _ _)
+        · exact ext_step ce cok (ih _ _ _ _)
+      · split
+        · exact ext_step ce cok (ext_step ae aok (ih _ _ _ _))
+        · exact ext_step ce cok (ext_step ae aok (ih _ _ _ _))
+
+/-- THE INVARIANT.  Started in any wrapper state `w`, the wrapper loop computes what the pure loop computes for
+    EVERY pure session `s` that agrees with the FINAL memo table (and has the same guard verdicts), started with the
+    consumed balances `W.consumed w`.  In particular the loop never looks at the session outside the addresses it has
+    memoised, and what it has memoised never changes (`selectLoopWS_ext`). -/
+theorem selectLoopWS_refines (v : Variant) (pick : List HItem → Option (HItem × List HItem)) (o : Oracle)
+    (guard : Tx → Bool) (q : SelParams) :
+    ∀ fuel heap w acc out (s : Session) (r : (List Tx × Nat) × W), s.badGuard = guard →
+      selectLoopWS v pick o guard q fuel heap w acc out = r → Agree r.2 s →
+      r.1 = selectLoop v pick s q fuel heap (W.consumed w) acc out := by
+  intro fuel
+  induction fuel with
+  | zero =>
+    intro heap w acc out s r _ hr _
+    subst hr
+    simp [selectLoopWS, selectLoop]
+  | succ fuel ih =>
+    intro heap w acc out s r hg hr ha
+    unfold selectLoopWS at hr
+    unfold selectLoop
+    split at hr
+    · rename_i hp
+      subst hr
+      simp only [hp]
+    · rename_i it heap' hp
+      simp only [hp]
+      obtain ⟨ce, cc, _⟩ := classifyW_ext o guard w it
+      have acons := accumulate_consumed o (classifyW o guard w it).1 it.cur
+      rw [cc] at acons
+      split at hr
+      · rename_i h1; subst hr; rw [if_pos h1]
+      rename_i h1
+      rw [if_neg h1]
+      split at hr
+      · rename_i h2; subst hr; rw [if_pos h2]
+      rename_i h2
+      rw [if_neg h2]
+      split at hr
+      · rename_i h3; subst hr; rw [if_pos h3]
+      rename_i h3
+      rw [if_neg h3]
+      dsimp only at hr
+      -- the verdict: the final table extends the table after the classification step
+      have hcl : ∀ wf, Ext (classifyW o guard w it).1 wf → Agree wf s →
+          classify s (W.consumed w) it = (classifyW o guard w it).2 :=
+        fun wf e a => classifyW_sound o guard w it s hg (a.of_ext e)
+      split at hr
+      · rename_i hv
+        have e := (selectLoopWS_ext v pick o guard q fuel heap' (classifyW o guard w it).1 acc out).1
+        rw [hr] at e
+        rw [hcl _ e ha, hv]
+        have := ih _ _ _ _ s r hg hr ha
+        rw [cc] at this
+        exact this
+      · rename_i hv
+        split at hr
+        · rename_i hadv
+          have e := (selectLoopWS_ext v pick o guard q fuel heap' (classifyW o guard w it).1 acc out).1
+          rw [hr] at e
+          rw [hcl _ e ha, hv]
+          have := ih _ _ _ _ s r hg hr ha
+          rw [cc] at this
+          simp only [hadv]
+          exact this
+        · rename_i it' hadv
+          have e := (selectLoopWS_ext v pick o guard q fuel (it' :: heap') (classifyW o guard w it).1 acc out).1
+          rw [hr] at e
+          rw [hcl _ e ha, hv]
+          have := ih _ _ _ _ s r hg hr ha
+          rw [cc] at this
+          simp only [hadv]
+          exact this
+      · rename_i hv
+        have ae := accumulate_ext o (classifyW o guard w it).1 it.cur
+        split at hr
+        · rename_i hadv
+          have e := (selectLoopWS_ext v pick o guard q fuel heap'
+            ((classifyW o guard w it).1.accumulate o it.cur)
+            (if v.gasWraps then (acc + it.cur.gasLimit) % two64 else acc + it.cur.gasLimit) (out ++ [it.cur])).1
+          rw [hr] at e
+          rw [hcl _ (ae.trans e) ha, hv]
+          have := ih _ _ _ _ s r hg hr ha
+          rw [acons] at this
+          simp only [hadv]
+          exact this
+        · rename_i it' hadv
+          have e := (selectLoopWS_ext v pick o guard q fuel (it' :: heap')
+            ((classifyW o guard w it).1.accumulate o it.cur)
+            (if v.gasWraps then (acc + it.cur.gasLimit) % two64 else acc + it.cur.gasLimit) (out ++ [it.cur])).1
+          rw [hr] at e
+          rw [hcl _ (ae.trans e) ha, hv]
+          have := ih _ _ _ _ s r hg hr ha
+          rw [acons] at this
+          simp only [hadv]
+          exact this
+
+/-! ### 4. the refinement theorem -/
+
+/-- the pure session the run stands for, read off the final memo table: for each address the first (and only)
+    answer the oracle gave for it during this run; nonce 0 / balance 0 for addresses never asked (or answered
+    with an error, see `Rec.ofAnswer`).  `firstAnswers_eq_oracle` spells it out in terms of the oracle. -/
+def firstAnswers (v : Variant) (pick : List HItem → Option (HItem × List HItem)) (o : Oracle) (guard : Tx → Bool)
+    (q : SelParams) (fuel : Nat) (heap : List HItem) : Session :=
+  W.session (finalW v pick o guard q fuel heap W.empty 0 []) (zeroSession guard)
+
+/-- general form, from any wrapper state and for any default session -/
+theorem selectLoopW_refines_from (v : Variant) (pick : List HItem → Option (HItem × List HItem)) (o : Oracle)
+    (s₀ : Session) (q : SelParams) (fuel : Nat) (heap : List HItem) (w : W) (acc : Nat) (out : List Tx) :
+    selectLoopW v pick o s₀.badGuard q fuel heap w acc out =
+      selectLoop v pick (W.session (finalW v pick o s₀.badGuard q fuel heap w acc out) s₀) q fuel heap
+        (W.consumed w) acc out :=
+  selectLoopWS_refines v pick o s₀.badGuard q fuel heap w acc out _ _ rfl rfl (agree_session _ _)
+
+/-- **Refinement.**  Whatever the external session answers (stateful, inconsistent, failing), the selection over the
+    memoising wrapper returns exactly (transactions and gas) what the pure loop of the model returns for the pure
+    session of first answers. -/
+theorem selectLoopW_refines (v : Variant) (pick : List HItem → Option (HItem × List HItem)) (o : Oracle)
+    (guard : Tx → Bool) (q : SelParams) (fuel : Nat) (heap : List HItem) :
+    selectLoopW v pick o guard q fuel heap W.empty 0 [] =
+      selectLoop v pick (firstAnswers v pick o guard q fuel heap) q fuel heap (fun _ => 0) 0 [] :=
+  selectLoopW_refines_from v pick o (zeroSession guard) q fuel heap W.empty 0 []
+
+theorem firstAnswers_guard (v : Variant) (pick : List HItem → Option (HItem × List HItem)) (o : Oracle)
+    (guard : Tx → Bool) (q : SelParams) (fuel : Nat) (heap : List HItem) :
+    (firstAnswers v pick o guard q fuel heap).badGuard = guard := rfl
+
+/-- `selectTransactionsFromBunches` -/
+theorem selectFromBunchesW_refines (v : Variant) (o : Oracle) (guard : Tx → Bool) (q : SelParams)
+    (bunches : List (List Tx)) :
+    selectFromBunchesW v o guard q bunches =
+      selectFromBunches v (firstAnswers v (popBest v) o guard q (bunchesTotal bunches + 1) (initHeap bunches)) q bunches :=
+  selectLoopW_refines v (popBest v) o guard q _ _
+
+/-! ### 6. each address is asked at most once; the session of first answers in terms of the oracle -/
+
+/-- the final table of a run started from a faithful log is a faithful log -/
+theorem finalW_ok (v : Variant) (pick : List HItem → Option (HItem × List HItem)) (o : Oracle) (guard : Tx → Bool)
+    (q : SelParams) (fuel : Nat) (heap : List HItem) (w : W) (acc : Nat) (out : List Tx) (h : W.Ok o w) :
+    W.Ok o (finalW v pick o guard q fuel heap w acc out) :=
+  (selectLoopWS_ext v pick o guard q fuel heap w acc out).2 h
+
+/-- **At most one `GetAccountState` per address.**  The only place where the oracle is consulted is the miss branch of
+    `getRecord` (`getRecord_hit_indep`), which uses call number `calls`, appends the address at the end of the table
+    (`getRecord_miss`) and increments `calls`.  At the end of any run the number of calls made is the number of
+    memoised addresses, and these are pairwise distinct. -/
+theorem getRecord_at_most_once (v : Variant) (pick : List HItem → Option (HItem × List HItem)) (o : Oracle)
+    (guard : Tx → Bool) (q : SelParams) (fuel : Nat) (heap : List HItem) :
+    (finalW v pick o guard q fuel heap W.empty 0 []).calls
+        = ((finalW v pick o guard q fuel heap W.empty 0 []).records.map (·.1)).length ∧
+    ((finalW v pick o guard q fuel heap W.empty 0 []).records.map (·.1)).Nodup := by
+  have h := finalW_ok v pick o guard q fuel heap W.empty 0 [] (ok_empty o)
+  exact ⟨by rw [h.calls]; simp, okFrom_nodup o _ 0 h.log⟩
+
+/-- position of an address in the table = number of the call that asked for it -/
+def posOf (a : Bytes) : List (Bytes × Rec) → Nat → Option Nat
+  | [], _ => none
+  | (k, _) :: rest, i => if k == a then some i else posOf a rest (i + 1)
+
+/-- the number of the (only) call made for address `a`, if any -/
+def W.queryIndex (w : W) (a : Bytes) : Option Nat := posOf a w.records 0
+
+/-- the session of first answers, spelled out with the oracle: the answer of the call that asked for the address -/
+def oracleSession (o : Oracle) (guard : Tx → Bool) (w : W) : Session where
+  nonce a := match w.queryIndex a with | some k => ((o k a).map (·.1)).getD 0 | none => 0
+  balance a := match w.queryIndex a with | some k => ((o k a).map (·.2)).getD 0 | none => 0
+  badGuard := guard
+
+theorem ofAnswer_nonce (x : Option (Nat × Nat)) : (Rec.ofAnswer x).nonce = (x.map (·.1)).getD 0 := by
+  cases x with
+  | none => rfl
+  | some p => rfl
+
+theorem ofAnswer_balance (x : Option (Nat × Nat)) : (Rec.ofAnswer x).balance = (x.map (·.2)).getD 0 := by
+  cases x with
+  | none => rfl
+  | some p => rfl
+
+theorem posOf_spec (a : Bytes) : ∀ (l : List (Bytes × Rec)) (i : Nat),
+    (∀ k, posOf a l i = some k → i ≤ k ∧ ∃ r, l[k - i]? = some (a, r)) ∧
+    (posOf a l i = none ↔ alookup a l = none) := by
+  intro l
+  induction l with
+  | nil => intro i; simp [posOf, alookup]
+  | cons e rest ih =>
+    intro i
+    obtain ⟨k0, r0⟩ := e
+    simp only [posOf, alookup]
+    split
+    · rename_i hk
+      have e := eq_of_beq hk
+      subst e
+      refine ⟨?_, by simp⟩
+      intro k hk'
+      simp only [Option.some.injEq] at hk'
+      subst hk'
+      exact ⟨Nat.le_refl _, r0, by simp⟩
+    · refine ⟨?_, (ih (i + 1)).2⟩
+      intro k hk'
+      obtain ⟨h1, r, h2⟩ := (ih (i + 1)).1 k hk'
+      refine ⟨by omega, r, ?_⟩
+      have e : k - i = (k - (i + 1)) + 1 := by omega
+      rw [e, List.getElem?_cons_succ]
+      exact h2
+
+/-- `queryIndex w a = some k`: entry number `k` of the table (filled by call number `k`) is the one of `a` -/
+theorem queryIndex_some {w : W} {a : Bytes} {k : Nat} (h : w.queryIndex a = some k) :
+    ∃ r, w.records[k]? = some (a, r) := by
+  obtain ⟨_, r, hr⟩ := (posOf_spec a w.records 0).1 k h
+  exact ⟨r, by simpa using hr⟩
+
+/-- `queryIndex w a = none`: the address was never asked -/
+theorem queryIndex_none {w : W} {a : Bytes} : w.queryIndex a = none ↔ alookup a w.records = none :=
+  (posOf_spec a w.records 0).2
+
+theorem okFrom_posOf (o : Oracle) (a : Bytes) : ∀ (l : List (Bytes × Rec)) (i : Nat), okFrom o i l →
+    (match alookup a l with | some r => r.nonce | none => 0)
+      = (match posOf a l i with | some k => ((o k a).map (·.1)).getD 0 | none => 0) ∧
+    (match alookup a l with | some r => r.balance | none => 0)
+      = (match posOf a l i with | some k => ((o k a).map (·.2)).getD 0 | none => 0) := by
+  intro l
+  induction l with
+  | nil => intro i _; simp [posOf, alookup]
+  | cons e rest ih =>
+    intro i h
+    obtain ⟨k0, r0⟩ := e
+    obtain ⟨h1, h2, _, h4⟩ := h
+    simp only [posOf, alookup]
+    by_cases hk : (k0 == a) = true
+    · have e := eq_of_beq hk
+      subst e
+      simp only [hk, if_true]
+      rw [h1, h2, ofAnswer_nonce, ofAnswer_balance]
+      exact ⟨rfl, rfl⟩
+    · simp only [hk, if_false, Bool.false_eq_true]
+      exact ih (i + 1) h4
+
+/-- on a faithful log the table-based session IS the oracle-based one -/
+theorem session_eq_oracleSession {o : Oracle} {w : W} (guard : Tx → Bool) (h : W.Ok o w) :
+    W.session w (zeroSession guard) = oracleSession o guard w := by
+  unfold W.session oracleSession zeroSession W.queryIndex
+  simp only [Session.mk.injEq, and_true]
+  exact ⟨funext fun a => (okFrom_posOf o a w.records 0 h.log).1,
+         funext fun a => (okFrom_posOf o a w.records 0 h.log).2⟩
+
+/-- the session of `selectLoopW_refines`, in terms of the oracle alone: `nonce a` / `balance a` is the answer of the
+    call number `queryIndex a` — the only call of the run made for `a` — and 0 if `a` was never asked or the
+    answer was an error -/
+theorem firstAnswers_eq_oracle (v : Variant) (pick : List HItem → Option (HItem × List HItem)) (o : Oracle)
+    (guard : Tx → Bool) (q : SelParams) (fuel : Nat) (heap : List HItem) :
+    firstAnswers v pick o guard q fuel heap
+      = oracleSession o guard (finalW v pick o guard q fuel heap W.empty 0 []) :=
+  session_eq_oracleSession guard (finalW_ok v pick o guard q fuel heap W.empty 0 [] (ok_empty o))
+
+/-! ### 5. corollaries -/
+
+/-- the pure session of an honest (consistent) external session -/
+def honestSession (o : Oracle) (guard : Tx → Bool) : Session where
+  nonce a := ((o 0 a).map (·.1)).getD 0
+  balance a := ((o 0 a).map (·.2)).getD 0
+  badGuard := guard
+
+/-- for an honest session the wrapper adds no behaviour -/
+theorem selectLoopW_consistent (v : Variant) (pick : List HItem → Option (HItem × List HItem)) (o : Oracle)
+    (hc : ∀ n m a, o n a = o m a) (guard : Tx → Bool) (q : SelParams) (fuel : Nat) (heap : List HItem) :
+    selectLoopW v pick o guard q fuel heap W.empty 0 [] =
+      selectLoop v pick (honestSession o guard) q fuel heap (fun _ => 0) 0 [] := by
+  refine selectLoopWS_refines v pick o guard q fuel heap W.empty 0 [] (honestSession o guard) _ rfl rfl ?_
+  have h := finalW_ok v pick o guard q fuel heap W.empty 0 [] (ok_empty o)
+  intro a r hr
+  obtain ⟨k, _, _, hn, hb⟩ := okFrom_lookup o _ 0 h.log hr
+  rw [hn, hb, ofAnswer_nonce, ofAnswer_balance, hc k 0 a]
+  exact ⟨rfl, rfl⟩
+
+/-- C01 over the wrapper, ANY oracle: per sender the selected nonces are consecutive and start at the nonce the
+    oracle reported at its FIRST (only) query for that sender — 0 on error or if the sender was never looked up -/
+theorem selectLoopW_nonce_run (v : Variant) (pick : List HItem → Option (HItem × List HItem)) (hp : PickOk pick)
+    (o : Oracle) (guard : Tx → Bool) (q : SelParams) (bunches : List (List Tx))
+    (hb : ∀ b ∈ bunches, BunchOk b) (hd : BunchesDistinct bunches) (fuel : Nat) (snd : Bytes) :
+    ∃ k, noncesOf snd (selectLoopW v pick o guard q fuel (initHeap bunches) W.empty 0 []).1 =
+      List.range'
+        (match (finalW v pick o guard q fuel (initHeap bunches) W.empty 0 []).queryIndex snd with
+          | some i => ((o i snd).map (·.1)).getD 0
+          | none => 0) k := by
+  have h := selectLoop_nonce_run v pick hp (firstAnswers v pick o guard q fuel (initHeap bunches)) q bunches hb hd fuel snd
+  rw [← selectLoopW_refines, firstAnswers_eq_oracle] at h
+  exact h
+
+/-- C02 (balances) over the wrapper, ANY oracle: walking the result in order, the balance first reported for the fee
+    payer covers this fee on top of everything earlier transactions of the result committed to that account -/
+theorem selectLoopW_balances_cover (v : Variant) (pick : List HItem → Option (HItem × List HItem))
+    (o : Oracle) (guard : Tx → Bool) (q : SelParams) (heap : List HItem) (fuel : Nat) :
+    let out := (selectLoopW v pick o guard q fuel heap W.empty 0 []).1
+    ∀ i (hi : i < out.length), committed (out.take i) (out[i]).payer + (out[i]).fee ≤
+      (match (finalW v pick o guard q fuel heap W.empty 0 []).queryIndex (out[i]).payer with
+        | some k => ((o k (out[i]).payer).map (·.2)).getD 0
+        | none => 0) := by
+  have h := selectLoop_balance v pick (firstAnswers v pick o guard q fuel heap) q heap fuel
+  rw [← selectLoopW_refines, firstAnswers_eq_oracle] at h
+  exact h
+
+/-- C02 (count) over the wrapper -/
+theorem selectLoopW_count (v : Variant) (pick : List HItem → Option (HItem × List HItem))
+    (o : Oracle) (guard : Tx → Bool) (q : SelParams) (heap : List HItem) (fuel : Nat) :
+    (selectLoopW v pick o guard q fuel heap W.empty 0 []).1.length ≤ q.maxNum := by
+  rw [selectLoopW_refines]; exact selectLoop_count v pick _ q heap fuel
+
+/-- C02 (gas) over the wrapper -/
+theorem selectLoopW_gas (v : Variant) (hv : v.gasWraps = false) (pick : List HItem → Option (HItem × List HItem))
+    (o : Oracle) (guard : Tx → Bool) (q : SelParams) (heap : List HItem) (fuel : Nat) :
+    let r := selectLoopW v pick o guard q fuel heap W.empty 0 []
+    (r.1.map (·.gasLimit)).sum = r.2 ∧ r.2 ≤ q.gasReq := by
+  rw [selectLoopW_refines]; exact selectLoop_gas v hv pick _ q heap fuel
+
+/-- C02 (guard) over the wrapper -/
+theorem selectLoopW_guard (v : Variant) (pick : List HItem → Option (HItem × List HItem))
+    (o : Oracle) (guard : Tx → Bool) (q : SelParams) (heap : List HItem) (fuel : Nat) :
+    ∀ t ∈ (selectLoopW v pick o guard q fuel heap W.empty 0 []).1, guard t = false := by
+  rw [selectLoopW_refines]
+  exact selectLoop_guard v pick (firstAnswers v pick o guard q fuel heap) q heap fuel
+
+/-- C02 (members, no duplicates) over the wrapper -/
+theorem selectLoopW_members (v : Variant) (pick : List HItem → Option (HItem × List HItem)) (hp : PickOk pick)
+    (o : Oracle) (guard : Tx → Bool) (q : SelParams) (bunches : List (List Tx)) (hn : bunches.flatten.Nodup)
+    (fuel : Nat) :
+    let out := (selectLoopW v pick o guard q fuel (initHeap bunches) W.empty 0 []).1
+    out.Nodup ∧ ∀ t ∈ out, t ∈ bunches.flatten := by
+  rw [selectLoopW_refines]; exact selectLoop_members v pick hp _ q bunches hn fuel
+
+/-! ### non-vacuity: an inconsistent oracle -/
+
+namespace Ex
+
+def A : Bytes := [1]
+def B : Bytes := [2]
+
+def mk (hash : Bytes) (sender : Bytes) (nonce : Nat) : Tx :=
+  { hash := hash, sender := sender, nonce := nonce, gasPrice := 1, gasLimit := 10, size := 0, fee := 10, value := 7,
+    relayer := [] }
+
+def a5 : Tx := mk [1] A 5
+def a6 : Tx := mk [2] A 6
+def a9 : Tx := mk [3] A 9
+def b0 : Tx := mk [4] B 0
+
+/-- 4 transactions, 2 senders -/
+def bunches : List (List Tx) := [[a5, a6, a9], [b0]]
+
+def q : SelParams := { gasReq := 1000, maxNum := 10, stop := fun _ => false }
+
+/-- an INCONSISTENT session: account `A` has nonce 5 when asked by the very first call, nonce 9 at every later call -/
+def liar : Oracle := fun n a =>
+  if a = A then (if n = 0 then some (5, 1000) else some (9, 1000)) else some (0, 1000)
+
+/-- the pure session of the FIRST answers / of the LATER answers -/
+def sFirst : Session := ⟨fun a => if a = A then 5 else 0, fun _ => 1000, fun _ => false⟩
+def sLater : Session := ⟨fun a => if a = A then 9 else 0, fun _ => 1000, fun _ => false⟩
+
+/-- the wrapper's result is the one of the first answers: `A`'s run is 5, 6 (then the gap to 9 drops the sender) -/
+example : selectFromBunchesW Variant.current liar (fun _ => false) q bunches = ([a5, a6, b0], 30) := by decide
+
+example : selectFromBunches Variant.current sFirst q bunches = ([a5, a6, b0], 30) := by decide
+
+/-- had the second answer (nonce 9) been used, the result would be different -/
+example : selectFromBunches Variant.current sLater q bunches = ([a9, b0], 20) := by decide
+
+example : selectFromBunchesW Variant.current liar (fun _ => false) q bunches
+    ≠ selectFromBunches Variant.current sLater q bunches := by decide
+
+/-- the final memo table of that run: two calls, two addresses; `A` keeps the FIRST answer, and (sender = fee payer,
+    both pointers alias one record) has consumed value + fee of both its transactions -/
+example : finalW Variant.current (popBest Variant.current) liar (fun _ => false) q 5 (initHeap bunches) W.empty 0 []
+    = ⟨[(A, ⟨5, 1000, 34⟩), (B, ⟨0, 1000, 17⟩)], 2⟩ := by decide
+
+/-- the session of `selectLoopW_refines` for that run is `sFirst` on the addresses involved -/
+example : (firstAnswers Variant.current (popBest Variant.current) liar (fun _ => false) q 5 (initHeap bunches)).nonce A = 5
+    ∧ (firstAnswers Variant.current (popBest Variant.current) liar (fun _ => false) q 5 (initHeap bunches)).nonce B = 0
+    ∧ (finalW Variant.current (popBest Variant.current) liar (fun _ => false) q 5 (initHeap bunches) W.empty 0 []).queryIndex A
+        = some 0 := by decide
+
+/-- aliasing in `accumulateConsumedBalance`: sender = fee payer, one record, both amounts -/
+example : (W.empty.accumulate liar a5).records = [(A, ⟨5, 1000, 17⟩)] := by decide
+
+/-- … and a relayed transaction: two records -/
+example : (W.empty.accumulate liar { a5 with relayer := B }).records = [(A, ⟨5, 1000, 7⟩), (B, ⟨0, 1000, 10⟩)] := by
+  decide
+
+/-- a lookup error is memoised as nonce 0 / balance 0: the sender's first transaction (fee 10) is not affordable -/
+example : selectFromBunchesW Variant.current (fun _ _ => none) (fun _ => false) q bunches = ([], 0) := by decide
+
+/-- the hypotheses of `selectLoopW_nonce_run` / `selectLoopW_members` are met by the example -/
+example : (∀ b ∈ bunches, BunchOk b) ∧ BunchesDistinct bunches ∧ bunches.flatten.Nodup := by
+  refine ⟨?_, ?_, by decide⟩
+  · intro b hb
+    simp only [bunches, List.mem_cons, List.not_mem_nil, or_false] at hb
+    rcases hb with rfl | rfl
+    · exact ⟨by decide, by decide⟩
+    · exact ⟨by decide, by decide⟩
+  · unfold BunchesDistinct bunches
+    decide
+
+/-- a consistent oracle satisfying the hypothesis of `selectLoopW_consistent` -/
+example : ∀ n m a, (fun (_ : Nat) (a : Bytes) => if a = A then some (5, 1000) else none) n a
+    = (fun (_ : Nat) (a : Bytes) => if a = A then some (5, 1000) else none) m a := fun _ _ _ => rfl
+
+example : selectFromBunchesW Variant.current (fun _ a => if a = A then some (5, 1000) else none) (fun _ => false) q bunches
+    = ([a5, a6], 20) := by decide
+
+end Ex
+
 end SW
 end SV.TxCache
